@@ -122,3 +122,31 @@ package graph
 //@   loop 3 (oldEdge) modifies newNodes[*]
 //@   loop 3 (oldEdge) invariant len(newNodes) == len(nodes) && fresh(newNodes) && (forall x int :: haskey(oldToNew, x) <==> inNodes(nodes, len(nodes), x)) && (forall x int :: haskey(oldToNew, x) ==> 0 <= oldToNew[x] && oldToNew[x] < len(nodes) && nodes[oldToNew[x]] == x) && listsSep(newNodes) && keptUpTo(g, nodes, edges, newNodes, _k)
 //@   assigns nothing
+
+// listSubgraph accessors and the property-map transducers (C18): NodeMap and
+// EdgeMap translate subgraph identifiers back to the underlying ones.
+//@ func listSubgraph.NumNodes
+//@   model int
+//@   requires s != nil
+//@   ensures [def] result == len(s.nodes)
+//@   assigns nothing
+//@ func listSubgraph.Out
+//@   model int
+//@   requires s != nil && 0 <= node && node < len(s.nodes)
+//@   ensures [def] len(result) == len(s.nodes[node].out) && (forall e in 0..len(result) :: result[e] == s.nodes[node].out[e])
+//@   assigns nothing
+//@ func listSubgraph.Underlying
+//@   model int
+//@   requires s != nil
+//@   ensures [def] result == s.underlying
+//@   assigns nothing
+//@ func listSubgraph.NodeMap#lit1
+//@   model int
+//@   requires s != nil && 0 <= node && node < len(s.nodes)
+//@   ensures [def] result == underlyingMap(s.nodes[node].oldNode)
+//@   assigns nothing
+//@ func listSubgraph.EdgeMap#lit1
+//@   model int
+//@   requires s != nil && 0 <= node && node < len(s.nodes) && 0 <= edge && edge < len(s.nodes[node].oldEdges)
+//@   ensures [def] result == underlyingMap(s.nodes[node].oldNode, s.nodes[node].oldEdges[edge])
+//@   assigns nothing
